@@ -19,6 +19,10 @@ def run(tier, seed):
     chk.leg("trace validation (Codec.tla judge)", mismatches=len(mism),
             inputs="hint sections: every weight profile x every malformation class x every polynomial boundary, random structured sections; "
                    "BitPack/BitUnpack for every (a,b) shape at the range ends and every bit phase; whole signatures; w1Encode; pk strings")
+    rel = vlib.build_harness("release")
+    mal = common.api_traces(chk, rel, "malformed", nbase=4 if tier == "quick" else 40)
+    common.validate_api(chk, {"malformed-%d" % s: p for s, p in mal.items()}, key_of=lambda e: "codec:malformed-signature-accepted")
+    common.nohooks_leg(chk, "malformed", nbase=4 if tier == "quick" else 40)
     common.mc_leg(chk, "MC_Codec", tier=tier, workers=12)
     chk.cov["exhaustive"] = False
     return chk.finish()
